@@ -1,0 +1,11 @@
+//go:build !verif
+
+package server
+
+import "net/http"
+
+// Verification hooks (build tag "verif"). With the tag off these are empty and inlined away.
+
+func verifProxy(http.Handler) {}
+
+func verifPoint(string, ...any) {}
